@@ -103,7 +103,7 @@ def structured():
                 ("rparse", "client_2", ("tok", 2), ["openid", "email", "offline_access"]), ("proc", 1, True)]
         cases.append(("chain-%s" % ("oidc" if oidc else "oauth2"), oidc, False, ops2))
         cases.append(("no-scope-%s" % ("oidc" if oidc else "oauth2"), oidc, False,
-                      [("authz", "diana", "client_3", ["openid"] if oidc else []), ("tparse", "client_3", ("tok", 0), "same"), ("proc", 0, None)]))
+                      [("authz", "diana", "client_12", ["openid"] if oidc else []), ("tparse", "client_12", ("tok", 0), "same"), ("proc", 0, None)]))
     return cases
 
 
